@@ -162,10 +162,16 @@ def _wf_fields(cls):
         return False
 
 
+import re as _re
+_UUID = _re.compile(r"[0-9a-f]{8}-[0-9a-f]{4}-[0-9a-f]{4}-[0-9a-f]{4}-[0-9a-f]{12}")
+
+
 def norm(v):
     """normalise a return value for comparison (ids are equal on both sides by construction)"""
     import datetime as _dt
     from enum import Enum
+    if isinstance(v, str) and _UUID.fullmatch(v):
+        return "<generated-id>"       # ids generated by the backends' own launches (trigger loop) differ by construction
     if v is None or isinstance(v, (bool, int, str)):
         return v
     if isinstance(v, float):
@@ -292,7 +298,7 @@ def _pages(w, a, S):
             sizes.append(len(page))
             seen += page
             off += a[2]
-        return ("ok", [sizes, sorted(seen), len(seen) == len(set(seen))])
+        return ("ok", [sizes, sorted(norm(x) for x in seen), len(seen) == len(set(seen))])
     except Exception as e:      # noqa: BLE001
         return ("raises", type(e).__name__)
 
